@@ -333,5 +333,32 @@ theorem sound_cw (outCap : Nat) (msgs : List Msg) (o : CwObs) (c : Clause) (h : 
       exact ⟨some v, hv, by simp [lineIs, wireDiff_none_of_proj v (encodeMsg m) a h1 h2]⟩
     rw [this] at hpr; exact absurd hpr.2 (by simp)
 
+/-! ## `LoggingTransport` -/
+
+/-- the log of a logging connection: one entry per message that passed, in order, each carrying an encoding
+that agrees with the message in id, method, params, result and error -/
+def P_logShows (passed : List Passed) (o : LogObs) : Prop :=
+  ∃ l, o = .entries l ∧ l.length = passed.length ∧
+    ∀ (i : Nat) (h1 : i < passed.length) (h2 : i < l.length), entryIs passed[i] l[i] = true
+
+theorem entriesAre_of_pointwise : ∀ (ps : List Passed) (l : List (Option LogEntry)), l.length = ps.length →
+    (∀ (i : Nat) (h1 : i < ps.length) (h2 : i < l.length), entryIs ps[i] l[i] = true) → entriesAre ps l = true
+  | [], [], _, _ => rfl
+  | [], _ :: _, hl, _ => by simp at hl
+  | _ :: _, [], hl, _ => by simp at hl
+  | p :: ps, e :: es, hl, h => by
+    have h0 := h 0 (by simp) (by simp)
+    have ht := entriesAre_of_pointwise ps es (by simpa using hl)
+      (fun i h1 h2 => by
+        have := h (i + 1) (by simpa using h1) (by simpa using h2)
+        simpa only [List.getElem_cons_succ] using this)
+    simp only [List.getElem_cons_zero] at h0
+    simp [entriesAre, h0, ht]
+
+theorem sound_log (passed : List Passed) (o : LogObs) (c : Clause) (h : logMonitor passed o = some c) :
+    ¬ P_logShows passed o := by
+  rintro ⟨l, rfl, hl, hf⟩
+  simp [logMonitor, entriesAre_of_pointwise passed l hl hf] at h
+
 end Mon
 end Wire
